@@ -101,11 +101,25 @@ func NewRouteProg(idx int, r *rand.Rand, c14 bool) *Program {
 	var decls strings.Builder
 	fmt.Fprintf(&decls, "type %s int64\n\n", g.idType)
 	structs := []string{}
+	withEnum := !g.noInts && g.pr(0.5)
+	if withEnum {
+		// an enum whose labels (trailing comments) contain percent signs
+		decls.WriteString("type Discount int\n\nconst (\n\tDiscountNone Discount = iota // 0% (full price)\n\tDiscountHalf                  // 50% off\n\tDiscountAll                   // 100%d percent %s\n)\n\n")
+		p.Feature("route:enum-labels-with-percent-signs")
+	}
+	blobNamed := g.pr(0.3)
 	for i := 0; i < 2+g.r.Intn(3); i++ {
 		name := fmt.Sprintf("%s%d", g.pick("Payload", "Answer", "Query", "Report"), i)
+		if i == 1 && blobNamed {
+			name = "Blob" // an ordinary JSON payload called like the TypeScript type of file downloads
+			p.Feature("route:struct-named-Blob")
+		}
 		fa, fc := "int", g.pick("int", "string", g.idType)
 		if g.noInts {
 			fa, fc = "bool", "string"
+		}
+		if withEnum && i == 0 {
+			fc = "Discount"
 		}
 		fmt.Fprintf(&decls, "type %s struct {\n\tA %s\n\tB string `json:\"b\"`\n\tC []%s\n}\n\n", name, fa, fc)
 		structs = append(structs, name)
@@ -167,7 +181,13 @@ func NewRouteProg(idx int, r *rand.Rand, c14 bool) *Program {
 		default:
 			s := fmt.Sprintf("/api/%s/route%d/:param", g.pick("v1", "admin", "public", "caf%C3%A9", "my%20file", "100%d", "%s"), i)
 			pathExpr, rt.URL, rt.PathForm = fmt.Sprintf("%q", s), s, "literal"
-			if g.pr(0.2) {
+			if g.pr(0.25) {
+				s2 := g.pick("/api/v1", "/api/v1-docs/r", "/api", "/apiv1/r", "api/no-leading-slash/r") + fmt.Sprint(i)
+				if g.pr(0.3) {
+					s2 = g.pick("/api/v1", "/api") // the stem itself (once per value at most matters little)
+				}
+				pathExpr, rt.URL, rt.PathForm = fmt.Sprintf("%q", s2), s2, "literal-sharing-a-prefix-stem"
+			} else if g.pr(0.2) {
 				// an interpreted literal spelled with escape sequences: its VALUE is the URL
 				pathExpr = fmt.Sprintf(`"/api\x2fesc\u00e9/\"q\"/route%d/:param"`, i)
 				rt.URL, rt.PathForm = fmt.Sprintf(`/api/escé/"q"/route%d/:param`, i), "literal-with-escapes"
